@@ -115,6 +115,26 @@ Definition validate (cur : N) (vals : list N) (e : event) (ps : list parent) : r
     end
   end.
 
+(* A Reader that hands out a nil *pos.Validators (outside its contract): epochcheck still compares
+   the epoch first; `validators.Exists` then dereferences nil.  [None] = that run-time panic. *)
+Definition epoch_validate_opt (cur : N) (vals : option (list N)) (e : event) : option result :=
+  match vals with
+  | Some v => Some (epoch_validate cur v e)
+  | None => if negb (e_epoch e =? cur) then Some (Err NotRelevant) else None
+  end.
+
+Definition validate_opt (cur : N) (vals : option (list N)) (e : event) (ps : list parent)
+  : option result :=
+  match basic_validate e with
+  | Err k => Some (Err k)
+  | Ok =>
+    match epoch_validate_opt cur vals e with
+    | None => None
+    | Some (Err k) => Some (Err k)
+    | Some Ok => Some (parents_validate e ps)
+    end
+  end.
+
 (* numbering of results for the case files: 0 = nil *)
 Definition result_code (r : result) : N :=
   match r with
